@@ -9,7 +9,7 @@ from . import C01, C11, C16
 
 META = {
     "level": "translation_validation",
-    "explanation": "Static translation validation of the code *generator*: the source template that every _emitparse/_emitbuild (39 + 32 class-level emitters and the macro closures of PascalString/PrefixedArray) can generate is recovered from its f-strings, %-formats and `block +=` loops (engine T, nothing is executed), parsed with ast.parse, and summarised in the same event vocabulary as the interpreter (io -> stream, this -> context, io.read/write/tell/seek -> READ/WRITE/TELL/SEEK, placeholders for compiled sub-expressions -> sub-construct calls, restream/reuse/lambdas inlined). One template covers every instance of its class, so agreement of template and interpreter method is agreement for all constructs. Rules: (R0) every template variant parses; (R1) repr discipline: a hole into which a context-evaluated constructor parameter (possibly an expression object or a string) is rendered must use repr -- str() of an expression prints string operands unquoted; (R2) the nested contexts built by generated code equal the interpreter's (direction flags constant-folded, _subcons None as documented), each followed by the _root fix-up, and this.update(obj) appears exactly where the interpreter updates; (R3) skeleton agreement between template and interpreter method per class and direction: same sub-construct calls on the same stream/context in the same order, same read/write amounts and data terms, same stores into result and context, same handlers, same result term, modulo the documented omissions (no path, no _index, no length checks, compile-time sizeof in Padded/Aligned); (R4) the fallback ladder catches exactly NotImplementedError and links field._parse/_build under the same id in the tables compile() copies into the module, and Compiled delegates to parsefunc/buildfunc/defersubcon; (R5) closures patched by macros have the arity of their call sites and parse the count/length first; (R6) generated code binds the helper names the expressions render (shared with C11.R5); (R7) emitter and interpreter consult the same constructor parameters, or the emitter refuses (NotImplementedError -> linked interpreter method) when an unsupported one is set.",
+    "explanation": "Static translation validation of the code *generator*: the source template that every _emitparse/_emitbuild (39 + 32 class-level emitters and the macro closures of PascalString/PrefixedArray) can generate is recovered from its f-strings, %-formats and `block +=` loops (engine T, nothing is executed), parsed with ast.parse, and summarised in the same event vocabulary as the interpreter (io -> stream, this -> context, io.read/write/tell/seek -> READ/WRITE/TELL/SEEK, placeholders for compiled sub-expressions -> sub-construct calls, restream/reuse/lambdas inlined). One template covers every instance of its class, so agreement of template and interpreter method is agreement for all constructs. Rules: (R0) every template variant parses; (R1) repr discipline: a hole into which a context-evaluated constructor parameter (possibly an expression object or a string) is rendered must use repr -- str() of an expression prints string operands unquoted; (R2) the nested contexts built by generated code equal the interpreter's (direction flags constant-folded, _subcons None as documented), each followed by the _root fix-up, and this.update(obj) appears exactly where the interpreter updates; (R3) skeleton agreement between template and interpreter method per class and direction: same sub-construct calls on the same stream/context in the same order, same read/write amounts and data terms, same stores into result and context, same handlers, same result term, modulo the documented omissions (no path, no _index, no length checks, compile-time sizeof in Padded/Aligned); (R4) the fallback ladder catches exactly NotImplementedError and links field._parse/_build under the same id in the tables compile() copies into the module, and Compiled delegates to parsefunc/buildfunc/defersubcon; (R5) closures patched by macros have the arity of their call sites and parse the count/length first; (R6) generated code binds the helper names the expressions render (shared with C11.R5); (R7) emitter and interpreter consult the same constructor parameters, or the emitter refuses (NotImplementedError -> linked interpreter method) when an unsupported one is set. R6 also carries the operator spelling table and the parse-faithful rendering of expressions (C11.R3/R4: generated code evaluates repr(expression)); (R8) the templates frozen out of R3 for their compile-time specialisation -- parse_peek, parse/build_pointer, parse_union incl. the generation-time index of the selected member -- satisfy the position contracts of C09.R6.",
     "undecided": "Value equality on all inputs and Compiled.sizeof numerics; lambdas other than linked callbacks, Index, parsed hooks, discard and _subcons are excluded by documentation.",
     "trusted_base": ["python ast (3.12) incl. ast.parse of the recovered templates", "sa.tmpl template recovery", "sa.tsumm / sa.summ summarisers", "CodeGen.append normalisation re-implemented in sa.tmpl"],
     "assumptions": ["sub-expressions compiled from sub-constructs are themselves validated by their own class's template (induction over nesting)"],
